@@ -715,7 +715,7 @@ func (p *RXTimingSetupReqPayload) UnmarshalBinary(data []byte) error {
 	if len(data) != 1 {
 		return errors.New("lorawan: 1 byte of data is expected")
 	}
-	p.Delay = data[0]
+	p.Delay = data[0] & 0x0f // bits 7:4 are RFU
 	return nil
 }
 
